@@ -331,3 +331,25 @@ def ob_d(ob):
     ob.encodes(MD.Molecular_Dynamics_Basic.initialize, MD.Molecular_Dynamics_Basic.set_dof, MD.Molecular_Dynamics_Langevin.set_dof, MD.XL_BOMD.set_dof, MD.Molecular_Dynamics_Basic._kinetic_energy, MD.Molecular_Dynamics_Basic._calc_temperature)
     ob.bound("padded batch [[O,H,H],[H,H,pad]]; velocities and masses symbolic; 9 engine/damp/remove_com combinations with the documented constraint counts (Basic/undamped XL: 0/3/6; Langevin and damped XL: always 0)")
     dof_temperature(ob, "d")
+
+
+# ---- shared obligation: momentum conservation of a run with centre-of-mass removal needs _zero_com to leave zero linear momentum for a centre of mass off the origin ----
+from . import C13 as _C13_mod  # noqa: E402
+
+
+@obligation(PID, "e", title="[shared with C13.a] " + [e for e in __import__("engine.ob", fromlist=["REGISTRY"]).REGISTRY["C13"] if e[1] is _C13_mod.ob_a][0][3])
+def ob_e_shared(ob):
+    """momentum conservation of a run with centre-of-mass removal needs _zero_com to leave zero linear momentum for a centre of mass off the origin"""
+    ob.note("this obligation is the one registered as C13.a; it is also decided here because momentum conservation of a run with centre-of-mass removal needs _zero_com to leave zero linear momentum for a centre of mass off the origin")
+    _C13_mod.ob_a(ob)
+
+
+# ---- shared obligation: the excited-surface energy conserved by the integrator is computed from orbital energies that must follow their orbitals through an orbital swap ----
+from . import C14 as _C14_mod  # noqa: E402
+
+
+@obligation(PID, "f", title="[shared with C14.e] " + [e for e in __import__("engine.ob", fromlist=["REGISTRY"]).REGISTRY["C14"] if e[1] is _C14_mod.ob_e][0][3])
+def ob_f_shared(ob):
+    """the excited-surface energy conserved by the integrator is computed from orbital energies that must follow their orbitals through an orbital swap"""
+    ob.note("this obligation is the one registered as C14.e; it is also decided here because the excited-surface energy conserved by the integrator is computed from orbital energies that must follow their orbitals through an orbital swap")
+    _C14_mod.ob_e(ob)
